@@ -4,10 +4,10 @@ import (
 	"bytes"
 	"fmt"
 	"io"
-	"time"
 	"math/big"
 	"reflect"
 	"sort"
+	"time"
 
 	"github.com/polynetwork/poly/common"
 	"github.com/polynetwork/poly/common/config"
